@@ -17,9 +17,14 @@ def demo():
 try:
   rc0, out0 = demo()
   print("demo without the change: rc=%d" % rc0)
-  patch = subprocess.run(["git", "-C", src, "diff", "--", "ai_edge_quantizer"], stdout=subprocess.PIPE, text=True).stdout
+  # the agent's own record of its change (worktrees share one git stash, so the working tree may have been swapped)
+  if os.path.exists(os.path.join(src, "PATCH.diff")):
+    patch = open(os.path.join(src, "PATCH.diff")).read()
+  else:
+    patch = subprocess.run(["git", "-C", src, "diff", "--", "ai_edge_quantizer"], stdout=subprocess.PIPE, text=True).stdout
   open("/tmp/confirm_%s.diff" % sid, "w").write(patch)
-  subprocess.run(["git", "-C", wt, "apply", "/tmp/confirm_%s.diff" % sid], check=True)
+  subprocess.run(["git", "-C", wt, "apply", "-3", "/tmp/confirm_%s.diff" % sid], check=True)
+  patch = subprocess.run(["git", "-C", wt, "diff", "HEAD", "--", "ai_edge_quantizer"], stdout=subprocess.PIPE, text=True).stdout
   rc1, out1 = demo()
   print("demo with the change:    rc=%d  %s" % (rc1, out1.strip().splitlines()[-1][:200] if out1.strip() else ""))
   b = subprocess.run(["/tmp/wt/baseline_check.py", wt], stdout=subprocess.PIPE, text=True)
